@@ -244,6 +244,10 @@ class SchemaGen:
         elif ap < 0.5 and props:
             s["additionalProperties"] = self.pick([self.s_string, self.s_integer, self.s_bool])()
             self.use("extra_map")
+        if self.avoid and len(props) == 1 and required and s.get("additionalProperties") in (None, True):
+            # an OPEN object with exactly one (required) member is read as an externally tagged variant when it
+            # is a oneOf/anyOf branch (KF-C02-2): such objects are generated closed
+            s["additionalProperties"] = False
         return s
 
     def s_nullable(self, d):
